@@ -145,9 +145,10 @@ fn c10_burst() {
         let inflight = accepted;
         let held = w.driver.node_store().records.len();
         note(format!("after a completion notification: held={held} writes_in_flight={inflight}"));
-        if burst_accepted >= 2 && held == cap + inflight + 1 {
-            // both unacknowledged writes were admitted against an index that the first one had already shrunk
-            check_bool("burst:held_le_capacity_plus_inflight[two_unacknowledged_puts_overshoot_by_one]", false);
+        if burst_accepted >= 2 && held > cap + inflight && held <= cap + inflight + (burst_accepted - 1) {
+            // k unacknowledged writes were admitted against an index that only the first one shrank:
+            // the overshoot is at most k-1 (anything larger is a different failure and keeps the plain name)
+            check_bool("burst:held_le_capacity_plus_inflight[k_unacknowledged_puts_overshoot_by_at_most_k_minus_one]", false);
         } else {
             check_bool("burst:held_le_capacity_plus_inflight", held <= cap + inflight);
         }
